@@ -237,6 +237,23 @@ PROPS = {
         "quick": {"budget_s": 100, "chunk": 6, "chunk_timeout_s": 1200},
         "thorough": {"budget_s": 1200, "chunk": 6, "minimise_s": 200, "chunk_timeout_s": 2400},
     },
+    "C03": {
+        "test": "TestC03",
+        "level": "exploration",
+        "world": "B: two real web nodes (crypto with the file-system key store, VDR did:web and did:nuts, VCR issuer/holder/verifier, IAM, policy, crypto API) on the simulated HTTP, SQL, session-store and peer-to-peer transports, debug logging on",
+        "rule": "each run: a composite workload (subject creation, credential issuance in a seeded format, wallet load, service access token in a seeded token type, introspection, "
+                "DPoP proof, presentation, the signing API with caller-supplied headers including a jwk header with a private part, path-like key names, did:nuts document traffic) "
+                "with a seeded subset of HTTP, SQL and KV error faults enabled, because error paths are where a key would be logged. At the end every private key in the nodes' key "
+                "store directories is parsed and encoded (scalar/exponent/primes as hex, HEX, base64, base64url, raw, decimal; PKCS#8 PEM body lines; DER tail; SEC1) and every "
+                "monitored channel is searched: HTTP requests and responses, API responses to the workload, peer-to-peer envelopes, log lines (debug level), audit log, every SQL "
+                "row, every session-store write, every file under the data directory outside the key store. Distinct = distinct decision hashes.",
+        "invariants": ["C03.canary", "C03.kid", "C03.namespace", "C03.jwk-header"],
+        "assumptions": ["only the file-system key store backend runs (Vault and Azure backends need their servers)",
+                        "a key leaked in a transformed form that is none of the searched encodings (e.g. encrypted, split, or re-encoded with another alphabet) is not seen"],
+        "probes_expected": ["signature-verified-with-published-key", "private-jwk-header-refused"],
+        "quick": {"budget_s": 75, "chunk": 6, "chunk_timeout_s": 1200},
+        "thorough": {"budget_s": 900, "chunk": 6, "minimise_s": 120, "chunk_timeout_s": 2400},
+    },
     "C09": {
         "test": "TestC09",
         "level": "exploration",
